@@ -237,6 +237,7 @@ type caseT struct {
 	Exec    bool   `json:"exec,omitempty"`  // one of the generations in a fresh process
 	App     bool   `json:"app,omitempty"`   // also serve the operations from two app instances and compare body and ETag
 	Cold    bool   `json:"cold,omitempty"`  // first-use concurrency: 8 goroutines validate for the first time in a fresh process
+	Seq     bool   `json:"seq,omitempty"`   // the app OpenAPI state: registrations interleaved with a running generation
 }
 
 func (o *opT) method() string {
@@ -780,6 +781,100 @@ func appProbe(c *caseT, st *hx.Stats) bool {
 	}
 	sum := sha256.Sum256([]byte(s1.body))
 	return s1.body == s2.body && s1.etag == s2.etag && s1.etag == fmt.Sprintf(`"%x"`, sum) && s1.notMod == http.StatusNotModified
+}
+
+// ---------------------------------------------------------------------------------------------
+// the app's OpenAPI state (openapiState.{ops,specCache,specETag}): what a documented route
+// registration (AddOperation) and the handler of the specification path (GenerateSpec) call, driven
+// through the verif-tagged accessors. A registration that arrives WHILE a specification is being
+// generated must not be lost: once it has returned, the served document describes it.
+
+// gateT is a response sample whose MarshalJSON runs in the middle of Generate (the document is
+// serialised there); the probe uses it to register further operations at that moment.
+type gateT struct {
+	N string `json:"n"`
+}
+
+var gateHook func()
+
+func (g gateT) MarshalJSON() ([]byte, error) {
+	if f := gateHook; f != nil {
+		f()
+	}
+	return []byte(`{"n":"` + g.N + `"}`), nil
+}
+
+func stateProbe(c *caseT) (ok bool, ran bool) {
+	defer func() {
+		if p := recover(); p != nil {
+			ok, ran = true, false
+		}
+	}()
+	gateHook = nil
+	gate := func() openapi.Operation {
+		return openapi.GET("/zz-gate", openapi.WithSummary("gate"), openapi.WithResponse(200, gateT{N: "x"}))
+	}
+	k := len(c.Ops) / 2
+	build := func() (early, late []openapi.Operation) {
+		for i := range c.Ops {
+			if i < k {
+				early = append(early, c.Ops[i].construct())
+			} else {
+				late = append(late, c.Ops[i].construct())
+			}
+		}
+		return
+	}
+	// what the served document must be once everything is registered
+	e0, l0 := build()
+	all := append(append(append([]openapi.Operation{}, e0...), gate()), l0...)
+	want, err := openapi.MustNew(c.apiOptions(false)...).Generate(context.Background(), all...)
+	if err != nil {
+		return true, false
+	}
+	a, err := app.New(app.WithServiceName("c07"), app.WithOpenAPI(c.apiOptions(false)...))
+	if err != nil {
+		return true, false
+	}
+	early, late := build()
+	for _, op := range early {
+		a.VerifOpenAPIAddOperation(op)
+	}
+	a.VerifOpenAPIAddOperation(gate())
+	registered := make(chan struct{})
+	var once sync.Once
+	gateHook = func() {
+		once.Do(func() {
+			go func() {
+				defer close(registered)
+				for _, op := range late {
+					a.VerifOpenAPIAddOperation(op)
+				}
+			}()
+			select { // give the registration the chance to run during the generation
+			case <-registered:
+			case <-time.After(120 * time.Millisecond):
+			}
+		})
+	}
+	defer func() { gateHook = nil }()
+	ctx := context.Background()
+	if _, _, err = a.VerifOpenAPIGenerateSpec(ctx); err != nil {
+		return true, false
+	}
+	select {
+	case <-registered:
+	case <-time.After(5 * time.Second):
+		return false, true
+	}
+	gateHook = nil
+	// every registration has returned: the served document describes all of them
+	b2, e2, err := a.VerifOpenAPIGenerateSpec(ctx)
+	if err != nil || !bytes.Equal(b2, want.JSON) || e2 != fmt.Sprintf(`"%x"`, sha256.Sum256(b2)) {
+		return false, true
+	}
+	b3, e3, err := a.VerifOpenAPIGenerateSpec(ctx)
+	return err == nil && bytes.Equal(b3, b2) && e3 == e2, true
 }
 
 // appEligible: standard-method constructors, plain router paths, no two routes with the same
@@ -1365,6 +1460,17 @@ func emit(id string, c *caseT, st *hx.Stats) string {
 		if c.App {
 			appOK = appProbe(c, st)
 		}
+		if c.Seq {
+			okS, ran := stateProbe(c)
+			appOK = appOK && okS
+			if st != nil {
+				if ran {
+					st.Count("state_probe")
+				} else {
+					st.Count("state_probe_skipped")
+				}
+			}
+		}
 		if c.Cold && mv {
 			clean, ran, _ := coldProbe(c)
 			coldOK = clean
@@ -1853,6 +1959,11 @@ func fixedCases() []caseT {
 						Resps: []respT{{200, TX{K: "data", I: 1}}, {404, ct("pa.Item")}},
 						Ex:    map[int][]exT{1: {{"schema-like", "s", 4}, {"hal", "", 5}}}},
 					{Ctor: "POST", Path: "/forms", Summary: "s", Resps: []respT{{201, TX{K: "data", I: 10}}, {400, TX{K: "data", I: 6}}}}}},
+			// the app's OpenAPI state: operations registered while a specification is being generated
+			caseT{V31: v31, Seq: true, Ops: []opT{
+				{Ctor: "GET", Path: "/early", Summary: "early", Resps: ok(ct("pa.Item"))},
+				{Ctor: "GET", Path: "/late/:id", Summary: "late", Resps: ok(ct("pa.Node"))},
+				{Ctor: "POST", Path: "/late", Summary: "late", Tags: []string{"users"}}}},
 			// first-use concurrency of validation-on in a fresh process (cold meta-schema cache)
 			caseT{V31: v31, Cold: true, Ops: []opT{{Ctor: "GET", Path: "/ping", Summary: "Ping", Resps: ok(TX{K: "struct",
 				F: []FX{{Name: "OK", Tag: `json:"ok"`, T: TX{K: "prim", P: "bool"}}}})}}},
@@ -1979,9 +2090,9 @@ func main() {
 		for i, c := range fixedCases() {
 			run(fmt.Sprintf("c07-fix-%d", i), &c, st)
 		}
-		pauses, execs, apps, colds := 2, 3, 3, 4
+		pauses, execs, apps, colds, seqs := 2, 3, 3, 4, 4
 		if a.Tier == "thorough" {
-			pauses, execs, apps, colds = 4, 12, 10, 16
+			pauses, execs, apps, colds, seqs = 4, 12, 10, 16, 16
 		}
 		for i := 0; i < a.N; i++ {
 			c := genCase(r)
@@ -1996,6 +2107,10 @@ func main() {
 			if apps > 0 && r.Chance(1, 20) && appEligible(&c) {
 				c.App = true
 				apps--
+			}
+			if seqs > 0 && r.Chance(1, 10) && len(c.Ops) >= 2 {
+				c.Seq = true
+				seqs--
 			}
 			if colds > 0 && r.Chance(1, 12) && len(c.Ops) > 0 {
 				c.Cold = true
